@@ -66,6 +66,14 @@ CHECKS["C04"] = dict(
     ref="DESIGN.md §5 C04",
 )
 
+CHECKS["C18"] = dict(
+    level="exploration",
+    text="Runtime monitoring of PycodeSerializer.render on generated and hand-written models (inner classes/enums, frozen/tuple models, stdlib date/time, non-finite floats and Decimals, QNames, bytes, generics, attribute maps, default elision): the source is compiled, executed in an empty namespace (and in a fresh subprocess for importable models) and the bound variable compared with the original by type-exact deep equality. Held on the executions produced.",
+    note="Trusted: CPython compile/exec, vf.xmlkit.deep_eq. The fresh-subprocess leg only runs for the importable hand-written models.",
+    technique="runtime monitoring: evaluate-back oracle (compile + exec in fresh namespace/process + deep equality)",
+    ref="DESIGN.md §5 C18",
+)
+
 FIX_COMMITS = []  # guarded hook commits in /repo (none: all hooks are installed from the harness side)
 
 
